@@ -37,7 +37,7 @@ LEVEL_TEXT = "Seeded exploration of (tree, invocation history, enumeration order
 OPTS = ["CONFIG_%s" % n for n in ("FOO", "BAR", "BAZ", "QUX", "OLD_A", "OLD_B", "WIFI_X")]
 CMAKE = {"project": "cmake_minimum_required(VERSION 3.16)\nproject(x)\n", "commented": "# project(x)\n", "indented": "  project (x)\n",
          "none": "add_library(x)\n", "upper": "include(foo)\nPROJECT(x)\n"}
-IS_ROOT = {"project": True, "commented": False, "indented": True, "none": False, "upper": False}
+IS_ROOT = {"project": True, "commented": False, "indented": True, "none": False, "upper": True}
 
 
 def generate(r, tier):
